@@ -3,6 +3,9 @@
   canonical bencoding.  Property theorems only.
 -/
 import Torf.Lemmas.Codec
+import Torf.Lemmas.CodecLookup
+import Torf.Lemmas.Span
+import Torf.Lemmas.Magnet
 import Torf.Model.ReadStream
 namespace Torf.C06
 open Torf Torf.Bencode Torf.Codec Torf.ReadStream
@@ -81,6 +84,69 @@ theorem C06_infohash_def (env : Env) (H : Bytes → Bytes) (md : List (PyVal × 
     simp only [Except.ok.injEq] at hh
     exact ⟨ib, hib, hh.symm⟩
   · exact absurd hh (by simp)
+
+/-- what `dump` returns: the serialisation of the converted metainfo -/
+theorem dump_ok {env : Env} {md : List (PyVal × PyVal)} {validate : Bool} {bs : Bytes}
+    (h : dump env md validate = .ok bs) :
+    ∃ u, encodeDict (ensureInfo md) = .ok u ∧ small env.lim u = true ∧ bs = ser u := by
+  unfold dump at h
+  split at h
+  · exact absurd h (by simp)
+  · split at h
+    · exact absurd h (by simp)
+    · rename_i u hu
+      split at h
+      · rename_i hs
+        simp only [Except.ok.injEq] at h
+        unfold convert at hu
+        split at hu
+        · rename_i u' hu'
+          simp only [Except.ok.injEq] at hu; subst hu
+          exact ⟨u', hu', hs, h.symm⟩
+        · exact absurd hu (by simp)
+      · exact absurd h (by simp)
+
+/-- **The hashed bytes are a slice of the written file, at the place where a conforming parser
+    finds the value of the top-level key `info`.**  For every metainfo that is a Python dict
+    (`wf`), whenever `dump()` returns `bs` and `infohash` returns `h`: `bs` splits as
+    `pre ++ ser (encode_dict info) ++ post`, the strict parser's span (offset, length) of the
+    value of top-level key `info` in `bs` is exactly `(|pre|, |ser (encode_dict info)|)`, and `h`
+    is the hex digest of that slice. -/
+theorem C06_span (env : Env) (H : Bytes → Bytes) (md : List (PyVal × PyVal)) (validate : Bool)
+    (bs h : Bytes) (hw : wf (.dict (ensureInfo md)) = true)
+    (hd : dump env md validate = .ok bs) (hh : infohash env H md = .ok h) :
+    ∃ pre post ikvs iu, PyVal.lookupStr "info" (ensureInfo md) = some (.dict ikvs) ∧
+      encodeDict ikvs = .ok iu ∧
+      bs = pre ++ ser iu ++ post ∧
+      spanOf env.lim kInfo bs = some (pre.length, (ser iu).length) ∧
+      (bs.drop pre.length).take (ser iu).length = ser iu ∧
+      h = Base32.hexLower (H (ser iu)) := by
+  obtain ⟨ib, hib, hh'⟩ := C06_infohash_def env H md h hh
+  obtain ⟨ikvs, iu, hl, hiu, hibs, _⟩ := C06_info_canonical env md ib hib
+  obtain ⟨u, hu, hs, hbs⟩ := dump_ok hd
+  obtain ⟨ukvs, v, hukvs, hv, hm⟩ := mem_encodeDict "info" (.dict ikvs) _ u hu hl
+  have hviu : v = iu := by
+    have : Except.ok v = Except.ok iu := hv.symm.trans hiu
+    exact Except.ok.inj this
+  subst hviu
+  have huniq := uniq_encodeValue _ _ hu hw
+  subst hukvs
+  have hk : utf8Enc "info" = kInfo := by decide
+  rw [hk] at hm
+  obtain ⟨pre, post, hsplit, hspan⟩ := spanOf_ser_dict env.lim kInfo v ukvs huniq hs hm
+  refine ⟨pre, post, ikvs, v, hl, hiu, by rw [hbs, hsplit], by rw [hbs, hspan], ?_, by rw [hh', hibs]⟩
+  rw [hbs, hsplit]
+  simp
+
+/-- **`magnet().xt` is `'urn:btih:'` followed by the infohash** — whenever the `xt` setter
+    accepts it (otherwise `MagnetError`; see `C06_magnet_ok`). -/
+theorem C06_magnet (env : Env) (H : Bytes → Bytes) (md : List (PyVal × PyVal)) (g h : Bytes)
+    (hg : magnetXtOf env H md = .ok g) (hh : infohash env H md = .ok h) :
+    g = urnBtih ++ h := by
+  simp only [magnetXtOf, hh, magnetXt_urn] at hg
+  split at hg
+  · exact (Except.ok.inj hg).symm
+  · exact absurd hg (by simp)
 
 /-- non-vacuity of `C06_canonical`: a metainfo with a bool, a float, a datetime, a tuple and a
     non-ASCII key is well-formed and dumps successfully. -/
